@@ -57,6 +57,19 @@ func validIndexMap(indexMap []channel.Index, numParts, numPartsParent int) bool 
 	return true
 }
 
+// lockedWithout returns whether after equals before with its first
+// sub-allocation for id removed.
+func lockedWithout(before, after []channel.SubAlloc, id channel.ID) bool {
+	for i := range before {
+		if before[i].ID == id {
+			return len(after) == len(before)-1 &&
+				channel.SubAllocsAssertEqual(before[:i], after[:i]) == nil &&
+				channel.SubAllocsAssertEqual(before[i+1:], after[i:]) == nil
+		}
+	}
+	return false
+}
+
 func (c *Client) rejectProposal(responder *UpdateResponder, reason string) {
 	ctx, cancel := context.WithTimeout(c.Ctx(), responseTimeout)
 	defer cancel()
